@@ -223,6 +223,27 @@ func buildStack(kind string, lim int, o stackOpts) *stack {
 		if d, ok := findIn[*limiter.DefaultLimiter](p); ok {
 			st.def = d
 		}
+		// place the recording delegate between the pool's wrapper and its default limiter (the pool
+		// offers no constructor seam): the private core.Limiter field that holds the default limiter
+		// is re-pointed at the recorder. Skipped silently if the layout changed.
+		if st.def != nil {
+			rec := &recDelegate{inner: st.def}
+			if injectDelegate(p, st.def, rec) {
+				st.rec = rec
+				st.rec.qsize = func() int {
+					if !vrt.Active() {
+						return -1
+					}
+					q := -1
+					vrt.S.TryCtl(func() {
+						if v, ok := st.queueSize(); ok {
+							q = v
+						}
+					})
+					return q
+				}
+			}
+		}
 		if s, ok := findIn[core.Strategy](st.def); ok {
 			st.strat = s
 		}
@@ -339,4 +360,48 @@ func fieldIface(f reflect.Value) any {
 		return reflect.NewAt(f.Type(), unsafe.Pointer(f.UnsafeAddr())).Elem().Interface()
 	}
 	return nil
+}
+
+// injectDelegate finds, inside root's object graph, an interface-typed field whose dynamic value is
+// target and stores repl there instead.
+func injectDelegate(root any, target *limiter.DefaultLimiter, repl core.Limiter) bool {
+	want := reflect.TypeOf((*core.Limiter)(nil)).Elem()
+	seen := map[uintptr]bool{}
+	var walk func(v reflect.Value, depth int) bool
+	walk = func(v reflect.Value, depth int) bool {
+		if !v.IsValid() || depth > 8 {
+			return false
+		}
+		switch v.Kind() {
+		case reflect.Ptr:
+			if v.IsNil() || seen[v.Pointer()] {
+				return false
+			}
+			seen[v.Pointer()] = true
+			return walk(v.Elem(), depth+1)
+		case reflect.Interface:
+			if v.IsNil() {
+				return false
+			}
+			if v.Type() == want && v.CanAddr() {
+				f := reflect.NewAt(v.Type(), unsafe.Pointer(v.UnsafeAddr())).Elem()
+				if d, ok := f.Interface().(*limiter.DefaultLimiter); ok && d == target {
+					f.Set(reflect.ValueOf(repl))
+					return true
+				}
+			}
+			return walk(v.Elem(), depth+1)
+		case reflect.Struct:
+			if skipPkg(v.Type().PkgPath()) {
+				return false
+			}
+			for i := 0; i < v.NumField(); i++ {
+				if walk(v.Field(i), depth+1) {
+					return true
+				}
+			}
+		}
+		return false
+	}
+	return walk(reflect.ValueOf(root), 0)
 }
